@@ -32,8 +32,8 @@ var (
 	RepoDir   = envOr("VERIF_REPO", "/repo")
 	VerifDir  = verifDir()
 	SimDir    = filepath.Join(VerifDir, "sim")
-	ReplayDir = filepath.Join(VerifDir, "replays")
-	EvidDir   = filepath.Join(VerifDir, "evidence")
+	ReplayDir = filepath.Join(envOr("VERIF_OUT", VerifDir), "replays")
+	EvidDir   = filepath.Join(envOr("VERIF_OUT", VerifDir), "evidence")
 )
 
 func envOr(k, def string) string {
